@@ -445,6 +445,57 @@ func absSections(sb *strings.Builder, fb []byte, off int) {
 	}
 }
 
+// PadFileGUIDs lists the GUID of every pad file (type 0xF0) of the image, the way a tree walk meets
+// them: top-level volumes, volumes in FV-image sections, sections of opened compressed sections.
+// Pad files are not part of the generator's image spec (the layout inserts them), but they are
+// files: a pattern that matches their GUID text selects them.
+func PadFileGUIDs(b []byte) [][16]byte {
+	var out [][16]byte
+	var vol func(v []byte)
+	var secs func(fb []byte, off int)
+	secs = func(fb []byte, off int) {
+		for off < len(fb) {
+			shl, size, ok := secAt(fb, off)
+			if !ok {
+				return
+			}
+			if plain, opened, why := compressedAt(fb, off, shl, size); opened && why == "" {
+				secs(plain, 0)
+			} else if fb[off+3] == 0x17 {
+				vol(fb[off+shl : off+size])
+			}
+			off = up(off+size, 4)
+		}
+	}
+	vol = func(v []byte) {
+		vi, why := volHeader(v)
+		if why != "" || !vi.ffs {
+			return
+		}
+		v = v[:vi.length]
+		off := vi.dataOff
+		for {
+			hl, size, free := fileAt(v, off, vi.pol)
+			if free || size < hl || off+size > len(v) {
+				return
+			}
+			fb := v[off : off+size]
+			if fb[18] == 0xF0 {
+				var g [16]byte
+				copy(g[:], fb[:16])
+				out = append(out, g)
+			} else if sectioned(fb[18]) {
+				secs(fb, hl)
+			}
+			off = up(off+size, 8)
+		}
+	}
+	for _, tv := range TopVolumes(b) {
+		vol(b[tv.Off : tv.Off+tv.Len])
+	}
+	return out
+}
+
 // FileOffsets maps "volumeindex/guid/type#occurrence" of every non-pad file of the top-level
 // volumes to its offset in the image.
 func FileOffsets(b []byte) map[string]int {
